@@ -85,6 +85,11 @@ def make_beads(case):
                 'events': [[int(v) for v in row] for row in ch], 'names': chans, 'pne': {str(i + 1): '4,1' for i in range(nch)}}
         d, _ = samples.load(spec, name='c02_%d.fcs' % (case['seed'] % 7))
         d = FlowCal.transform.to_rfi(d)
+    elif case.get('intdata'):
+        # an 18-bit digital instrument: linear amplifier, integer events, analysed as loaded (integer container)
+        spec = {'version': 'FCS3.0', 'delim': '/', 'datatype': 'I', 'byteord': '1,2,3,4', 'widths': [32] * nch, 'ranges': [res] * nch,
+                'events': [[int(round(v)) for v in row] for row in data], 'names': chans, 'pne': {str(i + 1): '0,0' for i in range(nch)}}
+        d, _ = samples.load(spec, name='c02_%d.fcs' % (case['seed'] % 7))
     else:
         data = data.astype(np.float32)
         spec = {'version': 'FCS3.0', 'delim': '/', 'datatype': 'F', 'byteord': '1,2,3,4', 'widths': [32] * nch, 'ranges': [res] * nch,
@@ -155,6 +160,12 @@ class Prop(common.PropertyCheck):
         # a log amplifier: after conversion to RFI the lower range limit is 1, not 0; the dimmest subpopulation is piled up there
         for nchx in (1, 2):
             yield dict(base_case, K=8, sizes=[450] * 8, ratio=3.2, nch=nchx, logamp=True, clust='first', seed=1000 + nchx)
+        # a blank population (manufacturer value 0) in a table that marks an unknown value with None
+        yield dict(base_case, K=7, sizes=[450] * 7, nch=2, blank=True, unknown=[(1, 2)], seed=4000)
+        yield dict(base_case, K=7, sizes=[450] * 7, nch=2, blank=True, unknown=[(0, 4), (1, 3)], seed=4001)
+        # integer samples (events kept in the integer container they were loaded into)
+        for i in range(2):
+            yield dict(base_case, K=6 + i, sizes=[450] * (6 + i), nch=1 + i, intdata=True, clust=['all', 'first'][i], saturate=bool(i), seed=3000 + i)
         # the clustering channel acquired at a low gain (dimmest subpopulations around 1 a.u.), a second channel calibrated from the same clusters
         for i, dim in enumerate((0.6, 1.0, 0.8)):
             yield dict(base_case, K=8, sizes=[500] * 8, ratio=3.0, nch=2, dim=dim, clust='first', seed=2000 + i)
@@ -220,6 +231,10 @@ class Prop(common.PropertyCheck):
                 a1 = np.asarray(r1.transform_fxn(d, chans))[:, order]
                 a2 = np.asarray(r1.transform_fxn(d[:, order], chans))
                 out['layout_ok'] = bool(np.array_equal(a1, a2))
+                # and the order in which the channels to convert are listed does not matter
+                a3 = np.asarray(r1.transform_fxn(d, list(reversed(chans))))
+                a4 = np.asarray(r1.transform_fxn(d, chans[1:] + chans[:1]))
+                out['request_order_ok'] = bool(np.array_equal(a3, np.asarray(r1.transform_fxn(d, chans))) and np.array_equal(a4, a3))
         except Exception as e:
             out['inj_err'] = type(e).__name__ + ':' + str(e)[:100]
             return out
@@ -340,6 +355,8 @@ class Prop(common.PropertyCheck):
                 problems.append('outcome depends on the order of events')
         if impl.get('layout_ok') is False:
             problems.append('the returned transformation converts other columns when the sample has its channels in another order than the bead file')
+        if impl.get('request_order_ok') is False:
+            problems.append('the returned transformation gives other values when the channels to convert are listed in another order than they were calibrated in')
         if impl.get('plot_same') not in (None, True):
             problems.append('with the diagnostic plots switched on the statistics / selected pairs / fit differ from the run without plots (%s)' % impl['plot_same'])
         if impl.get('mef_table_unchanged') is False:
